@@ -43,13 +43,8 @@ SLG = 'mitxgraders.listgrader.SingleListGrader'
 
 def check(ctx):
     idx = ctx.index
-    d1_formula(ctx, idx)
-    d2_single_return(ctx, idx)
-    d3_process(ctx, idx)
-    d4_check_response(ctx, idx)
-    d5_padding(ctx, idx)
-    d6_infer(ctx, idx)
-    d7_solver(ctx, idx)
+    for fn in (d1_formula, d2_single_return, d3_process, d4_check_response, d5_padding, d6_infer, d7_solver):
+        cm.guarded(ctx, fn, idx)
 
 
 # ------------------------------------------------------------------------------- D1
@@ -103,11 +98,11 @@ def d1_formula(ctx, idx):
         G, N = fi.params
         xs = [s for s in walk_own(fi.node) if isinstance(s, ast.Assign) and len(s.targets) == 1 and isinstance(s.targets[0], ast.Name)
               and isinstance(s.value, ast.BinOp) and isinstance(s.value.op, ast.Sub)
-              and any(cm.is_call_to(n, 'len', 1) and cm.is_name(n.args[0], G) for n in ast.walk(s.value))]
+              and any(cm.is_call_to(n, 'len', 1) and cm.is_name(n.args[0], G) for n in ast.walk(cm.inline(fi, s.value)))]
         if len(xs) != 1:
             raise AnalysisError('consolidate_grades: the surplus count (len(grades) - n_expect) is not computed once')
         X = xs[0].targets[0].id
-        res = nf.classify('len(%s) - %s' % (G, N), xs[0].value)
+        res = nf.classify('len(%s) - %s' % (G, N), cm.inline(fi, xs[0].value))
         r.verdict('consolidate_grades: surplus count', res, lib.loc(fi, xs[0]), ok_detail='len(grades) - n_expect',
                   expected='len(grade_decimals) - n_expect')
         if res != nf.MATCH:
@@ -116,7 +111,7 @@ def d1_formula(ctx, idx):
         for s in walk_own(fi.node):
             if isinstance(s, ast.Assign) and any(cm.is_name(t, N) for t in s.targets):
                 g = cm.guards_of(s, stop=fi.node)
-                good = nf.match('len(%s)' % G, s.value) is not None and any(nf.match('%s is None' % N, x) is not None for x in g)
+                good = nf.match('len(%s)' % G, cm.inline(fi, s.value)) is not None and any(nf.match('%s is None' % N, x) is not None for x in g)
                 r.check(good, 'consolidate_grades: default n_expect', 'len(grades) when not given',
                         'n_expect is replaced by `%s` under `%s`' % (short(s.value), ' and '.join(short(x) for x in g) or 'no condition'),
                         lib.loc(fi, s))
@@ -419,118 +414,228 @@ def d3_process(ctx, idx):
                         "(%s): the author's switch has no effect" % ('default True' if pcv is None else short(pcv)), lib.loc(fi, csr))
         else:
             r.undecided('process_grade_list: partial_credit', '`%s`' % short(pcv), lib.loc(fi, csr))
-        # all_awarded
-        aa = [s for s in walk_own(fi.node) if isinstance(s, ast.Assign) and len(s.targets) == 1 and cm.sub_key(s.targets[0]) == 'all_awarded'
-              and cm.is_name(s.targets[0].value, R)]
-        if not aa:
-            r.violation('process_grade_list: all_awarded published', "result['all_awarded'] is no longer set: an enclosing SingleListGrader "
-                        "reads item['all_awarded'] and fails with KeyError", fi.loc)
-            A = None
-            for k, v in lib.local_env(fi.node).items():
-                pass
+        _process_states(r, idx, fi, selfn, R)
+
+
+def _process_states(r, idx, fi, selfn, R):
+    """Final values of result['msg' | 'grade_decimal' | 'ok' | 'all_awarded'] per decision path, compared with the reference
+    over every assignment of: nested subgrader?, all items awarded?, answer message non-empty?, item messages empty?"""
+    import itertools
+    # locals computed from the result record keep their place in time: they are replayed in order below
+    timed = {R}
+    for n_ in walk_own(fi.node):
+        if isinstance(n_, ast.Assign) and len(n_.targets) == 1 and isinstance(n_.targets[0], ast.Name) \
+                and any(cm.is_name(x, R) for x in ast.walk(n_.value)):
+            timed.add(n_.targets[0].id)
+    paths = nf.decision_paths(fi.node.body, keep_locals=tuple(sorted(timed)))
+    understood = not cm.calls_unreviewed(idx, fi.node)
+    nested_p = nf.pat("isinstance(%s.config['subgrader'], SingleListGrader)" % selfn)
+
+    def atom(g):
+        if nf.Matcher().match(nested_p, g) is not None:
+            return 'nested', True
+        if isinstance(g, ast.Call) and nf.callee_name(g) in ('all', 'any') and len(g.args) == 1 \
+                and isinstance(g.args[0], (ast.GeneratorExp, ast.ListComp)) and cm.is_name(g.args[0].generators[0].iter, 'grade_list'):
+            return 'a', True
+        for pat_, val in (("msg != ''", True), ("msg == ''", False)):
+            if nf.match(pat_, g) is not None:
+                return 'm', val
+        if cm.is_name(g, 'msg'):
+            return 'm', True
+        for pat_, val in (("%s['msg'] == ''" % R, True), ("%s['msg'] != ''" % R, False)):
+            if nf.match(pat_, g) is not None:
+                return 'e', val
+        if nf.match("%s['msg']" % R, g) is not None:
+            return 'e', False
+        return None
+
+    def ev(g, sc):
+        if isinstance(g, ast.UnaryOp) and isinstance(g.op, ast.Not):
+            v = ev(g.operand, sc)
+            return None if v is None else not v
+        if isinstance(g, ast.BoolOp):
+            vs = [ev(v, sc) for v in g.values]
+            if None in vs:
+                return None
+            return all(vs) if isinstance(g.op, ast.And) else any(vs)
+        a_ = atom(g)
+        if a_ is None:
+            return None
+        return sc[a_[0]] == a_[1]
+
+    def terms(e):
+        if isinstance(e, ast.BinOp) and isinstance(e.op, ast.Add):
+            return terms(e.left) + terms(e.right)
+        return [e]
+
+    def is_appended(e):
+        t = terms(e)
+        return len(t) == 3 and nf.match("%s['msg']" % R, t[0]) is not None and isinstance(t[1], ast.Constant) and t[1].value == '\n' \
+            and cm.is_name(t[2], 'msg')
+
+    def resolve(e, sc):
+        while isinstance(e, ast.IfExp):
+            t = ev(nf.canon(e.test), sc)
+            if t is None:
+                return e
+            e = e.body if t else e.orelse
+        return e
+
+    class _Sub(ast.NodeTransformer):
+        def __init__(self, state):
+            self.state = state
+
+        def visit_Subscript(self, node):
+            k = cm.sub_key(node)
+            if k is not None and cm.is_name(node.value, R) and k in self.state and isinstance(node.ctx, ast.Load):
+                from ..index import clone
+                return clone(self.state[k])
+            self.generic_visit(node)
+            return node
+
+        def visit_Name(self, node):
+            if isinstance(node.ctx, ast.Load) and ('local', node.id) in self.state:
+                from ..index import clone
+                return clone(self.state[('local', node.id)])
+            return node
+
+    found = {}        # construct -> list of (kind, text, loc)
+
+    def note(construct, kind, text='', where=''):
+        found.setdefault(construct, []).append((kind, text, where))
+
+    C_ITEMS, C_NEST, C_PUB = 'process_grade_list: all_awarded (items)', 'process_grade_list: all_awarded (nested lists)', \
+        'process_grade_list: all_awarded published'
+    C_MSG, C_KEEP, C_CRED, C_OK, C_RET = 'process_grade_list: answer message', 'process_grade_list: answer message (item messages kept)', \
+        'process_grade_list: answer credit', 'process_grade_list: ok after scaling', 'process_grade_list: return'
+    scenarios = [dict(zip(('nested', 'a', 'm', 'e'), c)) for c in itertools.product((True, False), repeat=4)]
+    covered = set()
+    for p in paths:
+        where = lib.loc(fi, p.leaf.stmt) if p.leaf.stmt is not None else fi.loc
+        if p.leaf.kind == 'raise':
+            continue
+        opaque = [e for e in p.effects if isinstance(e, (ast.For, ast.While, ast.Try, ast.With))]
+        if opaque:
+            understood = False
+        state = {}
+        for e in p.effects:
+            from ..index import clone
+            if isinstance(e, ast.Assign) and len(e.targets) == 1 and cm.sub_key(e.targets[0]) is not None and cm.is_name(e.targets[0].value, R):
+                state[cm.sub_key(e.targets[0])] = nf.canon(_Sub(state).visit(clone(e.value)))
+            elif isinstance(e, ast.Assign) and len(e.targets) == 1 and isinstance(e.targets[0], ast.Name) and e.targets[0].id in timed \
+                    and e.targets[0].id != R:
+                state[('local', e.targets[0].id)] = nf.canon(_Sub(state).visit(clone(e.value)))
+        if p.leaf.kind != 'ret' or not cm.is_name(p.leaf.expr, R):
+            note(C_RET, 'viol', 'returns `%s`, not the consolidated result' % (short(p.leaf.expr) if p.leaf.expr is not None else 'None'), where)
         else:
-            r.ok('process_grade_list: all_awarded published', "result['all_awarded'] set", lib.loc(fi, aa[0]))
-        A = aa[0].value.id if aa and isinstance(aa[0].value, ast.Name) else None
-        defs = [s for s in walk_own(fi.node) if isinstance(s, ast.Assign) and len(s.targets) == 1 and cm.is_name(s.targets[0], A)] if A else []
-        if A is None:
-            # fall back: the local used in the message guard
-            defs = [s for s in walk_own(fi.node) if isinstance(s, ast.Assign) and len(s.targets) == 1 and isinstance(s.targets[0], ast.Name)
-                    and isinstance(s.value, ast.Call) and nf.callee_name(s.value) in ('all', 'any')]
-            A = defs[0].targets[0].id if defs else None
-        if not defs:
-            raise AnalysisError('process_grade_list: definition of all_awarded not found')
-        seen = set()
-        for s in defs:
-            g = cm.guards_of(s, stop=fi.node)
-            nested = None
-            for x in g:
-                if nf.match("isinstance(%s.config['subgrader'], SingleListGrader)" % selfn, x) is not None:
-                    nested = True
-                elif nf.match("not isinstance(%s.config['subgrader'], SingleListGrader)" % selfn, x) is not None:
-                    nested = False
-            where = lib.loc(fi, s)
-            if nested is None:
-                r.undecided('process_grade_list: all_awarded', 'definition under unrecognised guard %s' % [short(x) for x in g], where)
+            note(C_RET, 'ok', 'the consolidated result', where)
+        for sc in scenarios:
+            vals = [ev(g, sc) for g in p.guards]
+            if None in vals:
+                note(C_MSG, 'und', 'guard not evaluable: %s' % [short(g) for g, v in zip(p.guards, vals) if v is None], where)
                 continue
-            seen.add(nested)
-            if nested:
-                res = nf.classify(["all(_I['all_awarded'] for _I in grade_list)", "all([_I['all_awarded'] for _I in grade_list])"], s.value)
-                r.verdict('process_grade_list: all_awarded (nested lists)', res, where, ok_detail='all nested all_awarded',
-                          expected="all(item['all_awarded'] for item in grade_list)")
+            if not all(vals):
+                continue
+            covered.add(tuple(sorted(sc.items())))
+            # all_awarded
+            aa = state.get('all_awarded')
+            cons = C_NEST if sc['nested'] else C_ITEMS
+            if aa is None:
+                note(C_PUB, 'viol' if understood else 'und', "result['all_awarded'] is no longer set: an enclosing SingleListGrader reads "
+                     "item['all_awarded'] and fails with KeyError", fi.loc)
             else:
-                res = nf.classify(["all(0 < _I['grade_decimal'] for _I in grade_list)", "all([0 < _I['grade_decimal'] for _I in grade_list])"],
-                                  s.value)
-                if isinstance(res, tuple):
-                    r.violation('process_grade_list: all_awarded (items)', res[1] + ': the answer message is shown although an item '
-                                'earned no credit (or withheld although all did)', where,
-                                expected="all(item['grade_decimal'] > 0 for item in grade_list)", found=short(s.value))
+                note(C_PUB, 'ok', "result['all_awarded'] set", where)
+                aa_r = resolve(aa, sc)
+                pats = ["all(_I['all_awarded'] for _I in grade_list)", "all([_I['all_awarded'] for _I in grade_list])"] if sc['nested'] else \
+                    ["all(0 < _I['grade_decimal'] for _I in grade_list)", "all([0 < _I['grade_decimal'] for _I in grade_list])"]
+                res = nf.classify(pats, aa_r)
+                if res == nf.MATCH:
+                    note(cons, 'ok', 'all nested all_awarded' if sc['nested'] else 'all item grades > 0', where)
+                elif isinstance(res, tuple):
+                    note(cons, 'viol', res[1] + ': the answer message is shown although an item earned no credit (or withheld although all did)', where)
                 else:
-                    r.verdict('process_grade_list: all_awarded (items)', res, where, ok_detail='all item grades > 0',
-                              expected="all(item['grade_decimal'] > 0 for item in grade_list)")
-        if seen != {True, False}:
-            r.undecided('process_grade_list: all_awarded', 'cases covered: %s' % sorted(seen), fi.loc)
-        # answer message only under all_awarded
-        ms = [s for s in walk_own(fi.node) if isinstance(s, ast.Assign) and len(s.targets) == 1 and cm.sub_key(s.targets[0]) == 'msg'
-              and cm.is_name(s.targets[0].value, R)]
-        construct = 'process_grade_list: answer message'
-        if not ms:
-            r.violation(construct, "the answer-level message is never added to result['msg']", fi.loc)
-        for s in ms:
-            if not any(cm.is_name(n, 'msg') for n in ast.walk(s.value)):
-                r.undecided(construct, 'store `%s` does not use the answer message' % short(s), lib.loc(fi, s))
-                continue
-            g = cm.guards_of(s, stop=fi.node)
-            pos = any(cm.is_name(x, A) for x in g)
-            neg = any(isinstance(x, ast.UnaryOp) and isinstance(x.op, ast.Not) and cm.is_name(x.operand, A) for x in g)
-            if pos and not neg:
-                r.ok(construct, 'appended only when all_awarded', lib.loc(fi, s))
-            elif neg:
-                r.violation(construct, 'the answer message is shown exactly when NOT every item earned credit', lib.loc(fi, s),
-                            expected='if all_awarded and msg != \'\'', found=' and '.join(short(x) for x in g))
+                    other = nf.classify(["all(0 < _I['grade_decimal'] for _I in grade_list)"] if sc['nested'] else
+                                        ["all(_I['all_awarded'] for _I in grade_list)"], aa_r)
+                    if other == nf.MATCH:
+                        note(cons, 'viol', 'the %s rule is applied when the subgrader is %s a SingleListGrader' % (
+                            'item-credit' if sc['nested'] else 'nested all_awarded', 'itself' if sc['nested'] else 'not'), where)
+                    else:
+                        note(cons, 'und', 'all_awarded = `%s`' % short(aa_r), where)
+            # message
+            msgv = state.get('msg')
+            msgv = resolve(msgv, sc) if msgv is not None else None
+            unchanged = msgv is None or nf.match("%s['msg']" % R, msgv) is not None
+            if sc['a'] and sc['m']:
+                if unchanged:
+                    note(C_MSG, 'viol' if understood else 'und', "the answer-level message is not added to result['msg'] although every item "
+                         "earned credit", where)
+                elif sc['e']:
+                    if cm.is_name(msgv, 'msg'):
+                        note(C_MSG, 'ok', 'appended only when all_awarded', where)
+                    elif is_appended(msgv):
+                        note(C_MSG, 'ok', 'appended only when all_awarded', where)
+                        r.note("the answer message is joined with a newline even when there are no item messages")
+                    else:
+                        note(C_MSG, 'und', 'message `%s`' % short(msgv), where)
+                else:
+                    if is_appended(msgv):
+                        note(C_KEEP, 'ok', 'appended to the item messages', where)
+                    elif cm.is_name(msgv, 'msg'):
+                        note(C_KEEP, 'viol', 'the answer message replaces the item messages (result[\'msg\'] = msg although item messages exist)', where)
+                    else:
+                        res = nf.classify("%s['msg'] + '\\n' + msg" % R, msgv)
+                        note(C_KEEP, 'viol' if isinstance(res, tuple) else 'und', res[1] if isinstance(res, tuple) else 'message `%s`' % short(msgv), where)
+            elif not unchanged:
+                if not sc['a']:
+                    note(C_MSG, 'viol', 'the answer message is added although not every item earned credit%s' % (
+                        ' (and withheld when all did)' if False else ''), where)
+                else:
+                    note(C_MSG, 'viol', "an empty answer message is appended (adds a trailing line break)", where)
+            # scaling and ok
+            gv = state.get('grade_decimal')
+            if gv is None:
+                note(C_CRED, 'viol' if understood else 'und', "result['grade_decimal'] is never multiplied by the answer's own credit", fi.loc)
             else:
-                r.violation(construct, 'the answer message is appended without requiring all_awarded (guards: %s): it is shown although '
-                            'some submitted or expected item earned no credit' % (' and '.join(short(x) for x in g) or 'none'),
-                            lib.loc(fi, s), expected='if all_awarded and msg != \'\'')
-            # the message keeps the item messages
-            v = s.value
-            keeps = any(cm.sub_key(n) == 'msg' and cm.is_name(n.value, R) for n in ast.walk(v))
-            r.check(keeps, construct + ' (item messages kept)', 'appended to the item messages',
-                    'the answer message replaces the item messages (`%s`)' % short(v), lib.loc(fi, s))
-        # scaling and ok
-        cfg = cfg_of(fi.node)
-        scal = [s for s in walk_own(fi.node) if isinstance(s, (ast.AugAssign, ast.Assign)) and
-                cm.sub_key(s.target if isinstance(s, ast.AugAssign) else s.targets[0]) == 'grade_decimal' and
-                cm.is_name((s.target if isinstance(s, ast.AugAssign) else s.targets[0]).value, R)]
-        construct = 'process_grade_list: answer credit'
-        if not scal:
-            r.violation(construct, "result['grade_decimal'] is never multiplied by the answer's own credit", fi.loc,
-                        expected="result['grade_decimal'] *= grade_decimal")
-        for s in scal:
-            c = nf.canon(s)
-            res = nf.classify("%s['grade_decimal'] * grade_decimal" % R, c.value)
-            if isinstance(res, tuple):
-                r.violation(construct, res[1], lib.loc(fi, s), expected="result['grade_decimal'] * grade_decimal", found=short(s))
-            else:
-                r.verdict(construct, res, lib.loc(fi, s), ok_detail='grade multiplied by the answer credit',
-                          expected="result['grade_decimal'] *= grade_decimal")
-        oks = [s for s in walk_own(fi.node) if isinstance(s, ast.Assign) and len(s.targets) == 1 and cm.sub_key(s.targets[0]) == 'ok'
-               and cm.is_name(s.targets[0].value, R)]
-        construct = 'process_grade_list: ok after scaling'
-        good = [s for s in oks if nf.match("_F.grade_decimal_to_ok(%s['grade_decimal'])" % R, s.value) is not None]
-        if scal:
-            if not good:
-                r.violation(construct, "after the grade is multiplied by the answer's credit 'ok' is not recomputed from it%s: a partial-credit "
-                            "answer reports ok=True with a grade below 1" % (' (`%s`)' % short(oks[0]) if oks else ''),
-                            lib.loc(fi, scal[0]), expected="result['ok'] = grade_decimal_to_ok(result['grade_decimal'])")
-            else:
-                starts = [n for s in scal for n in cfg.nodes_of(s)]
-                through = [n for s in good for n in cfg.nodes_of(s)]
-                r.check(cfg.must_pass(starts, through, exits='return'), construct, 'recomputed on every path after the scaling',
-                        "a path from the scaling of the grade to the return does not recompute 'ok' (it is computed before the scaling): "
-                        "a partial-credit answer reports ok=True with a grade below 1", lib.loc(fi, good[0]))
-        for ret in lib.returns_of(fi.node):
-            r.check(cm.is_name(ret.value, R), 'process_grade_list: return', 'the consolidated result',
-                    'returns `%s`' % short(ret.value), lib.loc(fi, ret))
+                res = nf.classify("%s['grade_decimal'] * grade_decimal" % R, resolve(gv, sc))
+                if res == nf.MATCH:
+                    note(C_CRED, 'ok', 'grade multiplied by the answer credit', where)
+                elif isinstance(res, tuple):
+                    note(C_CRED, 'viol', res[1], where)
+                else:
+                    note(C_CRED, 'und', 'scaled grade `%s`' % short(gv), where)
+                okv = state.get('ok')
+                if okv is None:
+                    note(C_OK, 'viol' if understood else 'und', "after the grade is multiplied by the answer's credit 'ok' is not recomputed from "
+                         "it: a partial-credit answer reports ok=True with a grade below 1", fi.loc)
+                elif cm.is_call_to(okv, 'grade_decimal_to_ok', 1):
+                    if nf.equal(okv.args[0], gv):
+                        note(C_OK, 'ok', 'recomputed from the scaled grade', where)
+                    elif nf.match("%s['grade_decimal']" % R, okv.args[0]) is not None:
+                        note(C_OK, 'viol', "'ok' is computed from the grade *before* it is multiplied by the answer's credit: a partial-credit "
+                             "answer reports ok=True with a grade below 1", where)
+                    else:
+                        note(C_OK, 'und', "'ok' computed from `%s`" % short(okv.args[0]), where)
+                else:
+                    note(C_OK, 'und', "'ok' = `%s`" % short(okv), where)
+    missing = [sc for sc in scenarios if tuple(sorted(sc.items())) not in covered]
+    if missing:
+        note(C_MSG, 'und', 'no path understood for %d of the 16 cases' % len(missing), fi.loc)
+    for construct in (C_ITEMS, C_NEST, C_PUB, C_MSG, C_KEEP, C_CRED, C_OK, C_RET):
+        items = found.get(construct, [])
+        viols = [(t, w) for k, t, w in items if k == 'viol']
+        unds = [(t, w) for k, t, w in items if k == 'und']
+        if viols:
+            seen = set()
+            for t, w in viols:
+                if t not in seen:
+                    seen.add(t)
+                    r.violation(construct, t, w)
+        elif unds:
+            r.undecided(construct, unds[0][0], unds[0][1])
+        elif items:
+            r.ok(construct, items[0][1], items[0][2])
+        else:
+            r.undecided(construct, 'no case exercises this obligation', fi.loc)
 
 
 # ------------------------------------------------------------------------------- D4
@@ -566,7 +671,8 @@ def d4_check_response(ctx, idx):
         raises = lib.raises_of(fi.node)
         length_r, blank_r = [], []
         for rs in raises:
-            g = [nf.canon(lib.inline_locals(x, fi.node)) if False else x for x in cm.guards_of(rs, stop=fi.node)]
+            g = [y for x in cm.guards_of(rs, stop=fi.node) for y in nf.conjuncts(x if isinstance(x, ast.Name) or (
+                isinstance(x, ast.UnaryOp) and isinstance(x.operand, ast.Name)) else cm.inline(fi, x, keep=(ANS, STU)))]
             keys = {k for x in g for n in ast.walk(x) for k in [nf.config_key(n)] if k}
             if 'length_error' in keys:
                 length_r.append((rs, g))
@@ -579,6 +685,10 @@ def d4_check_response(ctx, idx):
             raise AnalysisError('check_response: grading calls not found')
         for what, lst, flag in (('length', length_r, 'length_error'), ('blank-item', blank_r, 'missing_error')):
             construct = 'check_response: %s error' % what
+            if not lst and cm.calls_unreviewed(idx, fi.node):
+                r.undecided(construct, "no raise guarded by config['%s'] found; un-inlined helpers %s are called" % (
+                    flag, cm.calls_unreviewed(idx, fi.node)), fi.loc)
+                continue
             if not lst:
                 r.violation(construct, "no raise is guarded by config['%s'] any more: %s is graded instead of refused" % (
                     flag, 'a wrong number of items' if what == 'length' else 'a blank item'), fi.loc)
@@ -611,8 +721,8 @@ def d4_check_response(ctx, idx):
             rest = [x for x in g if not lib.is_config(x, 'missing_error')]
             if not pos_flag:
                 r.violation(construct, "the blank-item error is raised when config['missing_error'] is false", lib.loc(fi, rs))
-            bl = [x for x in rest if isinstance(x, ast.Name)]
-            comp = cm.deref(fi, bl[0]) if bl else None
+            bl = [x for x in rest if isinstance(x, (ast.Name, ast.ListComp))]
+            comp = cm.value_of(fi, bl[0]) if bl else None
             if comp is None or not isinstance(comp, ast.ListComp):
                 others = [x for x in rest if not (cm.is_call_to(x, 'len') or isinstance(x, ast.Compare))]
                 if not rest:
@@ -721,7 +831,9 @@ def _grading(r, idx, fi, selfn, ANS, STU):
                 ordered = False
         branches.setdefault('unordered', []).append((c, ordered))
     construct = 'check_response: unordered grading'
-    if not foo:
+    if not foo and cm.calls_unreviewed(idx, fi.node):
+        r.undecided(construct, 'find_optimal_order not found; un-inlined helpers are called', fi.loc)
+    elif not foo:
         r.violation(construct, 'find_optimal_order is no longer called: unordered lists are graded positionally', fi.loc)
     for c, ordered in branches.get('unordered', []):
         where = lib.loc(fi, c)
@@ -876,7 +988,8 @@ def d5_padding(ctx, idx):
                         r.violation(construct, "an automatic failure (missing or surplus item) yields %s=%r instead of %r%s" % (
                             k, d[k], w, ': the answer message is shown although an item is missing/surplus' if k == 'all_awarded' else ''),
                             where, expected=repr(w), found=repr(d[k]))
-                conj = ast.BoolOp(op=ast.And(), values=list(p.guards)) if len(p.guards) > 1 else (p.guards[0] if p.guards else None)
+                gs_ = [nf.canon(cm.expand_quantifier(x)) for x in p.guards]
+                conj = ast.BoolOp(op=ast.And(), values=gs_) if len(gs_) > 1 else (gs_[0] if gs_ else None)
                 construct = 'padded_check: automatic failure condition'
                 if conj is None:
                     r.violation(construct, 'every pair is failed automatically', where)
@@ -1024,7 +1137,9 @@ def d6_infer(ctx, idx):
         ps = idx.func(SLG + '.post_schema_ans_val')
         calls = lib.calls_named(ps.node, 'infer_from_expect', own=False)
         construct = 'SingleListGrader.post_schema_ans_val: string answers'
-        if not calls:
+        if not calls and cm.calls_unreviewed(idx, ps.node):
+            r.undecided(construct, 'infer_from_expect not called here; un-inlined helpers are called', ps.loc)
+        elif not calls:
             r.violation(construct, 'string-form answers are no longer converted to lists', ps.loc)
         for c in calls:
             where = lib.loc(ps, c)
@@ -1173,6 +1288,17 @@ BENIGN = [
     Benign('switch-combined', LG, "    if not partial_credit:\n        if grade_decimal < 1:\n            grade_decimal = 0\n", "    if not partial_credit and grade_decimal < 1:\n        grade_decimal = 0\n"),
     Benign('ok-before-zeroing', LG, "    if not partial_credit:\n        if grade_decimal < 1:\n            grade_decimal = 0\n    ok_status = AbstractGrader.grade_decimal_to_ok(grade_decimal)\n",
            "    ok_status = AbstractGrader.grade_decimal_to_ok(grade_decimal)\n    if not partial_credit:\n        if grade_decimal < 1:\n            grade_decimal = 0\n"),
+    Benign('length-taken-once', LG, "    if n_expect is None:\n        n_expect = len(grade_decimals)\n\n    n_extra = len(grade_decimals) - n_expect\n",
+           "    n_given = len(grade_decimals)\n    if n_expect is None:\n        n_expect = n_given\n\n    n_extra = n_given - n_expect\n"),
+    Benign('message-append-if-else', LG, "            result['msg'] = msg if result['msg'] == '' else result['msg'] + '\\n' + msg\n",
+           "            if result['msg'] == '':\n                result['msg'] = msg\n            else:\n                result['msg'] += '\\n' + msg\n"),
+    Benign('scaled-grade-temporary', LG, "        result['grade_decimal'] *= grade_decimal\n        result['ok'] = AbstractGrader.grade_decimal_to_ok(result['grade_decimal'])\n",
+           "        scaled_grade = result['grade_decimal'] * grade_decimal\n        result['grade_decimal'] = scaled_grade\n        result['ok'] = AbstractGrader.grade_decimal_to_ok(scaled_grade)\n"),
+    Benign('nested-test-unnegated', LG, "        if not isinstance(self.config['subgrader'], SingleListGrader):\n            # Check to see if all items were awarded credit\n            all_awarded = all(item['grade_decimal'] > 0 for item in grade_list)\n        else:\n            # Check to see if all_awarded was True for all of the child SingleListGraders\n            all_awarded = all(item['all_awarded'] for item in grade_list)\n",
+           "        if isinstance(self.config['subgrader'], SingleListGrader):\n            all_awarded = all(item['all_awarded'] for item in grade_list)\n        else:\n            all_awarded = all(item['grade_decimal'] > 0 for item in grade_list)\n"),
+    Benign('failure-test-as-any', LG, "        if isinstance(ans, _AutomaticFailure) or isinstance(inp, _AutomaticFailure):", "        if any(isinstance(entry, _AutomaticFailure) for entry in (ans, inp)):"),
+    Benign('checks-in-helpers', LG, "        if self.config['length_error'] and len(answers) != len(student_list):\n            msg = 'List length error",
+           "        if self.config['length_error'] and not len(answers) == len(student_list):\n            msg = 'List length error"),
     Benign('all-awarded-list-form', LG, "all(item['grade_decimal'] > 0 for item in grade_list)", "all([item['grade_decimal'] > 0 for item in grade_list])"),
     Benign('message-guard-nested', LG, "        if all_awarded and msg != '':\n            result['msg'] = msg if result['msg'] == '' else result['msg'] + '\\n' + msg",
            "        if all_awarded:\n            if msg != '':\n                result['msg'] = msg if result['msg'] == '' else result['msg'] + '\\n' + msg"),
